@@ -195,6 +195,12 @@ def getitem(base: T, idx: T) -> T:
         i = idx.args[0]
         if -len(base.args) <= i < len(base.args):
             return base.args[i]
+    if base.op == "binop" and base.args[0] in ("-", "/") and idx.op == "const" and isinstance(idx.args[0], int):
+        # (A - c)[i] == A[i] - c  for a numeric literal c (elementwise on arrays; '-' and '/' do not exist for lists)
+        a_, c_ = base.args[1], base.args[2]
+        if isinstance(c_, T) and c_.op == "const" and isinstance(c_.args[0], (int, float)) and not isinstance(c_.args[0], bool) \
+                and isinstance(a_, T) and a_.op not in ("const",):
+            return mk("binop", base.args[0], getitem(a_, idx), c_)
     if base.op == "dict" and idx.op == "const":
         for j in range(0, len(base.args), 2):
             if base.args[j] is idx:
